@@ -334,12 +334,31 @@ def container_model(ctx):
     return {"delegation_table": tab, "distinct": r["distinct"], "generated": r["generated"], "from_source": bool(env)}
 
 
+def keep_evidence(ctx):
+    """--replay judges ONE scenario: it must not replace evidence/<id>.json of the last full run (a replay has no
+    model-checking part, its numbers would not be evidence for the level claimed). The result lines and the exit code
+    are produced as usual; the evidence of the replay run goes to a scratch directory that is removed."""
+    import shutil
+    orig = ctx.finish
+
+    def fin():
+        keep = C.EVIDENCE
+        C.EVIDENCE = os.path.join(C.WORK, "_replay_evidence_" + ctx.pid)
+        try:
+            return orig()
+        finally:
+            shutil.rmtree(C.EVIDENCE, ignore_errors=True)
+            C.EVIDENCE = keep
+    ctx.finish = fin
+
+
 def run(ctx):
     pid, tier = ctx.pid, ctx.tier
     rnd = random.Random(ctx.seed)
     bindir = C.build_harness(bins=["transport"])
 
     if getattr(ctx, "replay", None):
+        keep_evidence(ctx)
         return run_replay_file(ctx, bindir)
 
     # ---- 1. model checking I => A, export of behaviours
@@ -460,6 +479,10 @@ def run(ctx):
         "descriptor chains are well formed (readable descriptors before writable ones); virtio-queue / vm-memory are trusted as the source of chains and bitmaps",
     ]
     if pid == "C17":
+        # C17 through whole requests (every opcode with a payload, every request class) is decided by the wire
+        # engine's machinery on the same ctx: its C17| violations and counts are part of this check
+        from . import wire
+        ctx.extra["whole_request_transactions_over_virtiofs"] = wire.c17_requests(ctx)
         ctx.assumptions.append("'reply complete' = all writers of the scenario dropped; dirty bits are compared with the byte diff of guest memory at that point only (P = 4096)")
 
 
